@@ -13,6 +13,7 @@ mkdir -p lean/RSVerif/Gen
 python3 translate/rs2lean.py /repo lean/RSVerif/Gen/SrcEnvelope.lean || true
 python3 translate/rs2lean_work.py /repo lean/RSVerif/Gen/SrcWork.lean || true
 python3 translate/statics.py /repo lean/RSVerif/Gen/Statics.lean || true
+python3 translate/coverage.py /repo COVERAGE.md || true
 python3 translate/rs2lean_codec.py /repo lean/RSVerif/Gen/SrcCodec.lean || true
 python3 translate/rs2lean_engine.py /repo lean/RSVerif/Gen/SrcEngine.lean || true
 python3 translate/rs2lean_default.py /repo lean/RSVerif/Gen/SrcDefault.lean || true
